@@ -1168,6 +1168,21 @@ func checkRetryHandleSame(ix *index, add addFn) {
 		case "publish":
 			ok := first.Type == TPublish && tokenOf(first.Pay) == ro.Token && first.Topic == ro.Topic && first.QoS == ro.QoS && first.Retain == ro.Retain
 			ok = ok || first.Type == TPubRel // QoS 2 already in its second phase
+			// once the PUBREC of the message has reached the client the exchange is
+			// in its second phase for good: the handle of a later interruption
+			// re-issues PUBREL, never the PUBLISH
+			if ok && first.Type == TPublish && ro.QoS == 2 {
+				for _, j := range ix.rx {
+					if j >= ix.ops[k].inv {
+						break
+					}
+					if q := &ix.tr[j]; q.P != nil && q.P.Type == TPubRec && q.P.ID == first.ID && q.Conn != conn {
+						add("retry-handle", fmt.Sprintf("op %d: Retry transmitted %s although the PUBREC of that message had been received on conn %d", k, first, q.Conn), map[string]string{"kind": "second-phase"})
+						ok = true
+						break
+					}
+				}
+			}
 			if !ok {
 				add("retry-handle", fmt.Sprintf("op %d: Retry of publish %s transmitted %s", k, ro.Token, first), nil)
 			}
